@@ -148,7 +148,8 @@ class C19(PropBase):
                    "cannot decode are judged by the oracle alone",
                    "contexts in generated dumps have all registers valid (theorems cover unreadable registers; 32-bit addressing exercises the unreadable-operand path)"]
     manifest = {
-        "text": "Theorems (Coq, all addresses/register files/maps): each flip = examined value xor 2^j with j in the platform's bit range, "
+        "text": "Top-level theorem c19_the_property (raw records of the dump, arbitrary instruction analysis) states the property clause by clause; "
+                "it is assembled from: each flip = examined value xor 2^j with j in the platform's bit range, "
                 "result is null or inside a region (own range, via the C08 lookup-soundness theorem) permitting the access, nothing is "
                 "reported when the examined value is accessible (also stated on the map itself for a region that intersects no other), and "
                 "0 <= confidence <= 1 in exact binary32 for every details value with the table index in bounds for every count. Round 5: "
